@@ -113,6 +113,42 @@ def check_vector(ctx, item, want, tag="vector"):
     if pos != len(want) or again != want:
         ctx.violation(dict(base, check="dynamic-decode", pos=pos, want_pos=len(want), reencoded=again[:40].hex(),
                            what=f"{tag}: Dynamic decode of {desc(item)} consumed {pos}/{len(want)} bytes, re-encode equal={again == want}"))
+        return
+    # ... and into a Dynamic that was assigned a typed, narrower value of the same format code before
+    prev = dynamic_prev(item)
+    if prev is None:
+        return
+    try:
+        dyn2 = var.Dynamic([])
+        dyn2.set(prev)
+        pos = dyn2.decode(want + GARBAGE, 0)
+        again = bytes(dyn2.encode())
+    except Exception as exc:  # noqa: BLE001
+        ctx.violation(dict(base, check="dynamic-decode-reused", error=type(exc).__name__, bytes=want[:40].hex(), previous=repr(prev)[:80],
+                           what=f"{tag}: a Dynamic that held {prev!r} raised {exc!r} when decoding {desc(item)}"))
+        return
+    if pos != len(want) or again != want:
+        ctx.violation(dict(base, check="dynamic-decode-reused", pos=pos, want_pos=len(want), reencoded=again[:40].hex(), previous=repr(prev)[:80],
+                           what=f"{tag}: a Dynamic that held {prev!r} decodes {desc(item)} to a value that re-encodes as {again[:16].hex()}"))
+
+
+def dynamic_prev(item):
+    """A typed variable object of the item's format code whose definition is narrower than the item (count limit 1, or an
+    array of another element type): what a Dynamic may have been assigned before it decodes the item."""
+    import secsgem.secs.variables as var
+
+    f = item["f"]
+    try:
+        if f == "L":
+            return var.Array(var.U1, [1, 2])
+        if f == "J":
+            return None
+        one = {"B": b"\x01", "A": "x", "BOOLEAN": [True]}.get(f)
+        if one is None:
+            one = [1.5] if f in ("F4", "F8") else [1]
+        return e5bind.VCLS[f](one, count=1)
+    except Exception:  # noqa: BLE001
+        return None
 
 
 def len_item(v):
